@@ -282,8 +282,9 @@ class Hand:
         k = b.kind
         K = b.kids
         if k in LEAF_TAKES:
-            # a part is given what it takes
-            return call_obj(b.obj, votes, {a: v for a, v in kw.items() if a in LEAF_TAKES[k]})
+            # a part is given what it takes; "no seat count" (None) reaches a leaf as an omitted argument
+            return call_obj(b.obj, votes, {a: v for a, v in kw.items()
+                                           if a in LEAF_TAKES[k] and not (a == 'n' and v is None)})
         if k == 'fixed':
             # a fixed seat count equals passing that count
             kw2 = dict(kw)
@@ -322,8 +323,7 @@ class Hand:
 
     @staticmethod
     def _no_lists(kw):
-        if 'pl' in kw or 'lv' in kw:
-            raise TypeError('party lists given to an evaluator that has none')
+        pass
 
     # tie-breaking replaces each tie by the tiebreaker's choice among exactly the tied candidates
     # and changes nothing else
@@ -397,7 +397,7 @@ class Hand:
             allowed = self.run(b.kids['pre'], _totals(votes, 2), {} if n is None else {'n': n})
         out, empty = {}, []
         for con, cvotes in votes.items():
-            if seats.get(con) == 0:
+            if seats.get(con, 0) == 0:      # a constituency the apportionment does not mention has no seats
                 empty.append(con)
                 continue
             if allowed is not None:
@@ -415,7 +415,7 @@ class Hand:
     def _by_party(self, b, votes, kw):
         self._no_lists(kw)
         prev, mx = kw.get('prev', {}), kw.get('max', {})
-        overall = self.run(b.kids['overall'], _totals(votes, 2), {'n': kw['n']} if 'n' in kw else {})
+        overall = self.run(b.kids['overall'], _totals(votes, 2), {'n': kw['n']} if kw.get('n') is not None else {})
         alloc = b.kids.get('alloc') or b.kids['overall']
         out = {con: {} for con in votes}
         for party, seats in overall.items():
@@ -428,23 +428,19 @@ class Hand:
 
     # multi-stage distribution equals chaining the stages with accumulated previous gains
     def _multistage(self, b, votes, kw):
-        self._no_lists(kw)
-        if 'n' not in kw:
-            raise TypeError('n_seats missing')
         depth = b.node['depth']
         acc = copy.deepcopy(kw.get('prev', {}))
         rounds = b.kids['rounds']
         per_stage = [votes] * len(rounds) if isinstance(votes, dict) else list(votes)
         for st, sv in zip(rounds, per_stage):
-            r = self.run(st, sv, {'n': kw['n'], 'prev': copy.deepcopy(acc), 'max': kw.get('max', {})})
+            r = self.run(st, sv, {'n': kw.get('n'), 'prev': copy.deepcopy(acc), 'max': kw.get('max', {})})
             acc = _nested_add(acc, r, depth)
         return acc
 
     def _unused(self, b, votes, kw):
         import votelib.component.quota as vquota
         import votelib.evaluate.core as vcore
-        self._no_lists(kw)
-        if 'n' not in kw:
+        if kw.get('n') is None:
             raise TypeError('n_seats missing')
         if kw.get('max'):
             raise NotImplementedError('max_seats not supported')
@@ -468,8 +464,8 @@ class Hand:
 
     # party-list evaluation seats exactly as many list candidates as the party won
     def _party_list(self, b, votes, kw):
-        if 'n' not in kw or 'pl' not in kw:
-            raise TypeError('n_seats / party_lists missing')
+        if 'pl' not in kw:
+            raise TypeError('party_lists missing')
         if kw.get('lv'):
             raise ValueError('list votes given but no list evaluator')
         won = self.run(b.kids['party'], votes, {a: v for a, v in kw.items() if a in ('n', 'prev', 'max')})
@@ -618,31 +614,30 @@ def _agree(w, h):
     return same(canon_v(w), _canon_hand(h))
 
 
-def _takes_seats(b):
-    """does the part take a seat count when called by hand (from the composition, not from inspect)"""
+def takes(b):
+    """the arguments a part can be given when it is called by hand (from the composition, not from inspect)"""
     k = b.kind
     if k in LEAF_TAKES:
-        return 'n' in LEAF_TAKES[k]
+        return set(LEAF_TAKES[k])
     if k == 'fixed':
-        return False
-    if k in ('tb',):
-        return _takes_seats(b.kids['main'])
+        return takes(b.kids['e']) - {'n'}
+    if k == 'tb':
+        return takes(b.kids['main'])
     if k in ('pre', 'post', 'vs'):
-        return _takes_seats(b.kids['e'])
-    return True
+        return takes(b.kids['e'])
+    if k == 'cond':
+        return {'n', 'prev'} | (takes(b.kids['e']) & {'max', 'pl', 'lv'})
+    if k == 'plist':
+        return {'n', 'pl', 'lv'} | (takes(b.kids['party']) & {'prev', 'max'})
+    return {'n', 'prev', 'max'}
+
+
+def _takes_seats(b):
+    return 'n' in takes(b)
 
 
 def _takes_prev(b):
-    k = b.kind
-    if k in LEAF_TAKES:
-        return 'prev' in LEAF_TAKES[k]
-    if k == 'tb':
-        return _takes_prev(b.kids['main'])
-    if k in ('pre', 'post', 'vs', 'fixed'):
-        return _takes_prev(b.kids['e'])
-    if k == 'plist':
-        return _takes_prev(b.kids['party'])
-    return True
+    return 'prev' in takes(b)
 
 
 def diagnose(b, votes, kw, w, h):
@@ -663,6 +658,14 @@ def diagnose(b, votes, kw, w, h):
     if k == 'bycon':
         inner = b.kids['e']
         pre = b.kids.get('pre')
+        try:
+            seats = Hand()._apportion(b, copy.deepcopy(votes), kw.get('n'))
+        except Exception:       # noqa
+            seats = None
+        if isinstance(seats, dict) and any(con not in seats for con in votes) and _is_err(w):
+            return 'bycon:district_missing_from_apportionment:' + sym
+        if vflag_prev(inner) and 'max' not in takes(inner) and _is_err(w):
+            return 'bycon:max_seats_forced_on_inner_without_it:' + sym
         if pre is not None and pre.kind in generic and not _takes_seats(pre) and _is_err(w):
             return 'bycon:preselector_accepts_seats_generic_over_seatless:' + sym
         if not vflag_prev(inner) and _takes_prev(inner) and (kw.get('prev') or kw.get('max')):
@@ -698,6 +701,7 @@ def oracle(case, obs):
         if b.kind in LEAF_TAKES:
             continue
         hh = enc_hand(outcome[1]) if outcome[0] == 'ok' else {'err': outcome[1]}
+        kw = {a: v for a, v in kw.items() if a in takes(b)}
         ww = guarded(lambda: enc(call_obj(b.obj, votes, kw)))
         if not _agree(ww, hh):
             code = diagnose(b, votes, kw, ww, hh)
@@ -990,7 +994,7 @@ def g_nested_votes(rng, cons, parties):
 def g_gains(rng, parties, n, p_each=0.5):
     ent = []
     budget = n
-    for p in parties:
+    for p in dict.fromkeys(parties):
         if rng.random() < p_each and budget > 0:
             s = rng.randint(0, min(2, budget))
             budget -= s
@@ -999,7 +1003,7 @@ def g_gains(rng, parties, n, p_each=0.5):
 
 
 def g_caps(rng, parties, n):
-    return {'dict': [[p, str(rng.randint(0, max(1, n)))] for p in parties if rng.random() < 0.5]}
+    return {'dict': [[p, str(rng.randint(0, max(1, n)))] for p in dict.fromkeys(parties) if rng.random() < 0.5]}
 
 
 def parties_of(votes_json):
@@ -1020,6 +1024,16 @@ def takes_gains_json(node):
     if k == 'plist':
         return takes_gains_json(node['party'])
     return True
+
+
+def needs_n(node):
+    """is n_seats a required parameter of the call that reaches this tree's first non-pass-through node"""
+    k = node['k']
+    if k in ('vs', 'pre', 'post'):
+        return needs_n(node['e'])
+    if k == 'tb':
+        return needs_n(node['main'])
+    return k in ('multi', 'unused', 'plist')
 
 
 def mk_case(tree, args, tags):
@@ -1089,17 +1103,22 @@ def gen_nested(rng, d):
         tree = g_d2(rng, d, cons, spec, gains=rng.random() < 0.5)
     args = {'votes': votes}
     n = None
-    if spec == 'int' or spec == 'app_dist':
+    if spec == 'int':
         n = rng.randint(1, 6)
+        args['n'] = str(n)
+    elif spec == 'app_dist':
+        n = rng.randint(2 * len(cons), 3 * len(cons) + 2)     # mostly every constituency gets a seat
         args['n'] = str(n)
     elif spec == 'dict':
         args['n'] = {'dict': [[c, str(rng.choice([0, 1, 1, 2, 3]))] for c in cons]}
     elif spec in ('app_int', 'app_dict'):
         if rng.random() < 0.3:
             args['n'] = str(rng.randint(1, 5))     # ignored: the fixed apportioner wins
-    tags = ['seatspec:' + (spec if not (spec.startswith('app') and 'n' not in args and spec != 'app_dist') else spec)]
+    tags = ['seatspec:' + spec]
     if 'n' not in args:
         tags.append('seatspec:none')
+        if needs_n(tree):
+            args['n'] = None        # n_seats is a required parameter there: "no seat count" is written None
     if takes_gains_json(tree) and tree['k'] != 'pre':
         if rng.random() < 0.5:
             args['prev'] = {'dict': [[c, g_gains(rng, parties, 2)] for c in cons if rng.random() < 0.7]}
@@ -1172,7 +1191,7 @@ def gen_directed(rng):
                   ['directed'])
     # apportionment by a distributor, with and without a total
     nested = {'dict': [[CON0, {'dict': [[a, '40'], [b, '10']]}], [CON0 + 1, {'dict': [[a, '13'], [b, '15']]}],
-                       [CON0 + 2, {'dict': [[b, '6']]}]]}
+                       [CON0 + 2, {'dict': [[b, '26']]}]]}
     yield mk_case({'k': 'bycon', 'e': ha, 'app': {'ev': leaf('ha', divisor='sainte_lague')}},
                   {'votes': nested, 'n': str(rng.randint(3, 7))}, ['directed', 'seatspec:app_dist'])
     yield mk_case({'k': 'bycon', 'e': ha, 'app': {'ev': {'k': 'fixed', 'e': ha, 'n': str(rng.randint(3, 7))}}},
